@@ -104,8 +104,8 @@ type Sim struct {
 	allConns   []*SimConn
 	disks      []*Disk
 	deadInst   map[int]bool
-	rewriting  map[int]bool // instance currently inside RewriteLog (engine.mut held)
-	writing    map[int]bool // instance whose write-commit mutex is held by some task
+	rewriting  map[int]bool     // instance currently inside RewriteLog (engine.mut held)
+	writing    map[int]bool     // instance whose write-commit mutex is held by some task
 	rawFiles   []verifhook.File // AOF files opened while no profile wrapper was installed
 	locks      map[any]*lockInfo
 	ParkLocks  map[string]bool // instrumented locks (by name) whose acquisitions are scheduling points in this run
@@ -181,6 +181,7 @@ func (s *Sim) Probe(name string) { s.Stats.Probes[name]++ }
 func (s *Sim) install() {
 	s.ctrl = goid()
 	curSim.Store(s)
+	clockSkewMs.Store(0)
 	os.VerifFSHook = s.hookOSFS
 	verifhook.Install(&verifhook.Hooks{
 		Yield:     s.hookYield,
@@ -192,6 +193,9 @@ func (s *Sim) install() {
 		WrapFile:  s.hookWrap,
 		LockYield: s.hookLockYield,
 		LockNote:  s.hookLockNote,
+		ClockOffset: func() time.Duration {
+			return time.Duration(clockSkewMs.Load()) * time.Millisecond
+		},
 		Evict: func(db int, key string, memUsed int64, limit uint64) {
 			if s.OnEvict != nil {
 				s.OnEvict(db, key, memUsed, limit)
@@ -238,6 +242,7 @@ func (s *Sim) uninstall() {
 	s.rawFiles = nil
 	verifhook.Install(nil)
 	curSim.Store(nil)
+	clockSkewMs.Store(0)
 }
 
 // taskFor returns (creating if needed) the task of the calling goroutine. s.mu held.
@@ -572,6 +577,18 @@ func (s *Sim) hookYieldL(site string, label any) {
 	}
 	s.park(site, false)
 }
+
+// clockSkewMs is what the server's wall clock (clock.RealClock) reads beyond the bubble's fake clock: StepClock
+// moves it, nowMs (the harness's reading of the server clock) includes it. One simulation runs at a time.
+var clockSkewMs atomic.Int64
+
+// StepClock steps the server's wall clock by d (negative = backwards) without any time passing: timers and
+// tickers, which measure durations, are not affected - as with a real clock correction.
+func (s *Sim) StepClock(d time.Duration) {
+	clockSkewMs.Add(d.Milliseconds())
+	s.Stats.FaultsFired["clock-step"]++
+}
+
 func (s *Sim) hookSpin(site string) { s.park("spin:"+site, true) }
 
 func (s *Sim) callerTask() *Task {
